@@ -265,3 +265,41 @@ contract(M, 'dfa_simulate_word', {'D': 'DFA', 'word': 'Word'}, returns='List[(St
                                   'all(result[t][0] == dhat(D, D.q0, take(t, word)) and result[t][1] == drop(t, word) for t in range(len(result)))',
                                   'prefix == take(k, word)']}},
          theories=['word', 'wordx', 'dfa'], props=['C15', 'C19'])
+
+# ---------------------------------------------------------------------------------------------- C04: table filling
+_TK = 'all(((i, j) in table) == (0 <= i and i <= j and j < n) for i in ints() for j in ints())'
+_TS = 'all(implies(0 <= i and i <= j and j < n and not table[(i, j)], dist(D, q[i], q[j])) for i in ints() for j in ints())'
+_TF = 'all(implies(0 <= i and i <= j and j < n and table[(i, j)], (q[i] in D.F) == (q[j] in D.F)) for i in ints() for j in ints())'
+_TD = 'all(implies(0 <= i and i < n, table[(i, i)]) for i in ints())'
+_QL = ['q == listof(D.Q)', 'n == len(q)', 'all(implies(0 <= i and i < n, q[i] in D.Q) for i in ints())',
+       'all(implies(x in D.Q, 0 <= index_of(q, x) and index_of(q, x) < n and q[index_of(q, x)] == x) for x in atoms())',
+       'all(implies(0 <= i and i < j and j < n, q[i] != q[j]) for i in ints() for j in ints())']
+def _succ(i): return 'index_of(q, D.delta[(q[%s], a)])' % i
+_CL = 'all(trig(table[(min(%s, %s), max(%s, %s))], a in D.Sigma, table[(i, j)]) for a in D.Sigma)' % (_succ('i'), _succ('j'), _succ('i'), _succ('j'))
+_MIN_POST = ['dfa_wf(result)', 'result.Sigma == D.Sigma',
+             'all(implies(over(D.Sigma, w), dfa_accepts(result, w) == dfa_accepts(D, w)) for w in allwords())',
+             'all(implies(x in result.Q and y in result.Q and x != y, dist(result, x, y)) for x in atoms() for y in atoms())']
+contract(M, 'dfa_from_table', {'D': 'DFA', 'table': 'Map[(Int,Int),Bool]'}, returns='DFA', verify=False,
+         requires=['dfa_wf(D)',
+                   'all(((i, j) in table) == (0 <= i and i <= j and j < len(listof(D.Q))) for i in ints() for j in ints())',
+                   'all(implies(0 <= i and i <= j and j < len(listof(D.Q)), table[(i, j)] == (not dist(D, listof(D.Q)[i], listof(D.Q)[j]))) for i in ints() for j in ints())'],
+         ensures=_MIN_POST, theories=['word', 'dfa', 'nerode'], props=['C04'],
+         note='assumed: class assembly from an exact table of the Myhill-Nerode equivalence (lists of sets mutated in place, next() over generators); checked by the bounded stand-in')
+contract(M, 'dfa_minimize', {'D': 'DFA'}, returns='DFA', requires=['dfa_wf(D)'],
+         ensures=_MIN_POST,
+         types={'table': 'Map[(Int,Int),Bool]', 'q': 'List[State]'},
+         pre_return_asserts=['all(implies(0 <= i and i <= j and j < n, table[(i, j)] == (not dist(D, q[i], q[j]))) for i in ints() for j in ints())'],
+         # termination of the fixpoint loop: every round that sets `changed` unmarks at least one of the finitely many marked pairs
+         loops={1: {'ghost': 'done1', 'invariant': _QL + ['fin(trues(table))', 'all(((i, j) in table) == ((i, j) in done1) for i in ints() for j in ints())',
+                                                         'all(table[(i, j)] == ((q[i] in D.F) == (q[j] in D.F)) for (i, j) in done1)']},
+                2: {'snapshot': {'c0': 'card(trues(table))'}, 'decreases': ['card(trues(table))', '1 if changed else 0'],
+                    'invariant': _QL + ['fin(trues(table))', _TK, _TS, _TF, _TD,
+                                        'implies(not changed, all(implies(0 <= i and i < j and j < n and table[(i, j)], %s) for i in ints() for j in ints()))' % _CL],
+                    'exit_hints': ['dist_least(D, tabrel(q, table))']},
+                3: {'ghost': 'done3', 'invariant': _QL + ['fin(trues(table))', 'card(trues(table)) <= c0', 'implies(changed, card(trues(table)) < c0)', _TK, _TS, _TF, _TD,
+                                        'implies(not changed, all(implies(table[(i, j)], %s) for (i, j) in done3))' % _CL]},
+                4: {'ghost': 'done4', 'invariant': _QL + ['fin(trues(table))', 'card(trues(table)) <= c0', 'implies(changed, card(trues(table)) < c0)', _TK, _TS, _TF, _TD, '0 <= i and i < j and j < n', 'table[(i, j)]',
+                                        'implies(not changed, all(implies(table[(i2, j2)], %s) for (i2, j2) in done3))' % _CL.replace("'i'", "'i2'").replace('q[i]', 'q[i2]').replace('q[j]', 'q[j2]').replace('table[(i, j)]', 'table[(i2, j2)]'),
+                                        'all(table[(min(%s, %s), max(%s, %s))] for a in done4)' % (_succ('i'), _succ('j'), _succ('i'), _succ('j'))]}},
+         theories=['word', 'dfa', 'nerode'], props=['C04'],
+         note='the table-filling fixpoint is proved exact: at loop exit table[i, j] holds iff q[i] and q[j] are Myhill-Nerode equivalent (soundness of every marking by dist-step, completeness by the leastness instance for the unmarked relation); the fixpoint loop terminates (measure: number of marked pairs); the class assembly dfa_from_table is assumed at its contract')
